@@ -535,6 +535,28 @@ def check_v2(case, ctx: Ctx):
             ctx.fail(C, "states_differ", f"t={t}: fidelity {fid}")
         if list(st_.eigenstates) != list(sim.basis):
             ctx.fail(C, "eigenstates", f"{st_.eigenstates} vs {list(sim.basis)}")
+    # at the REQUESTED times: the legacy emulator given exactly t*T/1000 us builds the same
+    # time list as the backend, so the solver runs are identical and the states agree to
+    # solver noise (measured 3e-9; 1e-6 allowed); a backend evaluating at a shifted time differs by ~Omega*dt/2
+    if want is not None:
+        req_abs = [f * T / 1000 for f in want]
+        sim2 = ctx.must(lambda: QutipEmulator.from_sequence(seq, sampling_rate=sr, evaluation_times=req_abs),
+                        C, "legacy emulator at requested times")
+        leg2 = ctx.must(lambda: sim2.run(), C, "legacy run at requested times")
+        for f, ta in zip(want, req_abs):
+            cands = [(abs(t - f), t, st_) for t, st_ in zip(times, res.state)]
+            dmin, tv, st_ = min(cands, key=lambda x: x[0])
+            if dmin > 0.5 / T + 1e-9:
+                continue  # (missing time: reported above)
+            a = st_.to_qobj().full().reshape(-1)
+            b = leg2.get_state(ta, t_tol=1e-9).full().reshape(-1)
+            if a.shape == b.shape:
+                # (get_state() removes a global phase: align it before comparing)
+                a = a * np.exp(-1j * np.angle(np.vdot(b, a)))
+            if a.shape == b.shape and np.max(np.abs(a - b)) > 1e-6:
+                ctx.fail(C, "state_at_requested_time",
+                         f"requested t={f} (T={T} ns): V2 stored t={tv}, max amplitude difference with the legacy "
+                         f"state at {ta} us = {np.max(np.abs(a - b)):.3e}")
 
 
 def enum_durations(tier):
